@@ -73,4 +73,144 @@ def tableNoBreak : Bool :=
 
 theorem tableNoBreak_true : tableNoBreak = true := by decide +kernel
 
+
+theorem isBrk_of_toNat (x : Char) (h : keyCharOk x.toNat = true) : isBrk x = false := by
+  simp only [keyCharOk, Bool.and_eq_true, bne_iff_ne, ne_eq] at h
+  simp only [isBrk, Bool.or_eq_false_iff, decide_eq_false_iff_not]
+  constructor
+  · intro hx; subst hx; exact h.1 (by decide)
+  · intro hx; subst hx; exact h.2 (by decide)
+
+/-- a buffer that is in the entity map (a name or a prefix of one) contains no line break -/
+theorem lookup_no_break (nb : Str) (mt : Nat × Nat) (h : entityLookup nb = some mt) :
+    ∀ x ∈ nb, isBrk x = false := by
+  unfold entityLookup at h
+  cases hk : nb.map Char.toNat with
+  | nil =>
+    have : nb = [] := by simpa using hk
+    subst this
+    intro x hx; exact absurd hx List.not_mem_nil
+  | cons c rest =>
+    have hsome : (entityLookupN (c :: rest)).isSome = true := by rw [← hk, h]; rfl
+    obtain ⟨r, hr, hp⟩ := (Walk.lookup_some_iff c rest).mp hsome
+    have hc := bucket_letter c r hr
+    have ht := tableNoBreak_true
+    simp only [tableNoBreak, List.all_eq_true] at ht
+    have hrow := ht c hc r hr
+    intro x hx
+    apply isBrk_of_toNat
+    have : x.toNat ∈ c :: rest := by rw [← hk]; exact List.mem_map_of_mem hx
+    exact hrow _ (hp.subset this)
+
+
+/-! ### the reader conserves `line + breaks ahead` -/
+
+theorem foldChar_line (o : Opts) (m : Mach) (c : Char) :
+    (foldChar o m c).2.line = m.line + (if isBrk c then 1 else 0) := by
+  unfold foldChar isBrk
+  dsimp only
+  by_cases h1 : c = '\r'
+  · subst h1
+    simp only [↓reduceIte]
+    split <;> simp
+  · simp only [h1, ↓reduceIte]
+    by_cases h2 : c = '\n'
+    · subst h2; simp only [↓reduceIte]; split <;> simp
+    · simp only [h2, ↓reduceIte]; split <;> simp [h1, h2]
+
+/-- one character through input preprocessing (flag clear) -/
+theorem foldChar_phi (o : Opts) (m : Mach) (c : Char) (rest : Str) (h : m.ignoreLf = false) :
+    (foldChar o m c).2.line + brk (foldChar o m c).2.ignoreLf rest = m.line + brk false (c :: rest) := by
+  have hf := foldChar_fields o m c
+  rw [foldChar_line, hf.2.2.2.2.2.1]
+  by_cases h1 : c = '\r'
+  · subst h1; simp [isBrk, brk_cons_cr]; omega
+  · by_cases h2 : c = '\n'
+    · subst h2; simp [isBrk, h, brk_cons_lf]; omega
+    · have : isBrk c = false := by simp [isBrk, h1, h2]
+      simp [h1, h, this, brk_cons_plain]
+
+theorem preprocess_phi (o : Opts) (m : Mach) (c : Char) (rest : Str) :
+    (preprocess o m c rest).2.1.line + brk (preprocess o m c rest).2.1.ignoreLf (preprocess o m c rest).2.2
+      = m.line + brk m.ignoreLf (c :: rest) := by
+  unfold preprocess
+  split
+  · rename_i hil
+    split
+    · rename_i hc
+      subst hc
+      cases rest with
+      | nil => simp [hil, brk_cons_lf]
+      | cons y ys =>
+        simp only
+        rw [foldChar_phi o (m.setIgnoreLf false) y ys (by simp)]
+        simp [hil, brk_cons_lf]
+    · rename_i hc
+      simp only
+      rw [foldChar_phi o (m.setIgnoreLf false) c rest (by simp), hil, brk_flag c rest hc]
+      simp
+  · rename_i hil
+    simp only
+    rw [foldChar_phi o m c rest (by simpa using hil)]
+    simp at hil; rw [hil]
+
+theorem getChar_phi (o : Opts) (m : Mach) (inp : Str) :
+    (getChar o m inp).2.1.line + brk (getChar o m inp).2.1.ignoreLf (getChar o m inp).2.2
+      = m.line + brk m.ignoreLf inp := by
+  unfold getChar
+  split
+  · simp
+  · cases inp with
+    | nil => simp
+    | cons c rest => exact preprocess_phi o m c rest
+
+
+theorem not_brk_of_not_mem (S : List Char) (c : Char)
+    (hS : S.contains '\r' = true ∧ S.contains '\n' = true) (hc : S.contains c = false) : isBrk c = false := by
+  simp only [isBrk, Bool.or_eq_false_iff, decide_eq_false_iff_not]
+  constructor
+  · intro h; subst h; rw [hS.2] at hc; simp at hc
+  · intro h; subst h; rw [hS.1] at hc; simp at hc
+
+theorem popExceptFrom_phi (o : Opts) (S : List Char) (m : Mach) (inp : Str)
+    (hS : S.contains '\r' = true ∧ S.contains '\n' = true) :
+    (popExceptFrom o S m inp).2.1.line + brk (popExceptFrom o S m inp).2.1.ignoreLf (popExceptFrom o S m inp).2.2
+      = m.line + brk m.ignoreLf inp := by
+  unfold popExceptFrom
+  split
+  · exact getChar_phi o m inp
+  · rename_i hcond
+    simp only [Bool.or_eq_true, not_or, Bool.not_eq_true] at hcond
+    cases inp with
+    | nil => simp
+    | cons c rest =>
+      simp only
+      split
+      · exact preprocess_phi o m c rest
+      · rename_i hc
+        simp only
+        rw [hcond.2, brk_cons_plain _ _ _ (not_brk_of_not_mem S c hS (by simpa using hc))]
+
+theorem readData_phi (o : Opts) (m : Mach) (inp : Str) :
+    (readData o m inp).2.1.line + brk (readData o m inp).2.1.ignoreLf (readData o m inp).2.2
+      = m.line + brk m.ignoreLf inp := by
+  have hS := setOf_crlf .data (Or.inr rfl)
+  unfold readData
+  split
+  · exact popExceptFrom_phi o _ m inp hS
+  · rename_i hcond
+    simp only [Bool.or_eq_true, not_or, Bool.not_eq_true] at hcond
+    cases inp with
+    | nil => simp
+    | cons c rest =>
+      simp only
+      split
+      · exact popExceptFrom_phi o _ m (c :: rest) hS
+      · rename_i hc
+        have hnb : isBrk c = false := not_brk_of_not_mem simdFirst c (by decide) (by simpa using hc)
+        have hn : c ≠ '\n' := by
+          intro h; subst h; simp [isBrk] at hnb
+        simp only [hn, ↓reduceIte]
+        rw [hcond.2, brk_cons_plain _ _ _ hnb]
+
 end H5V.Model.HtmlTok
